@@ -74,16 +74,24 @@ func runC11(o *hx.Out, r *hx.Rand, thorough bool) {
 	if thorough {
 		n = 6000
 	}
-	for it := 0; it < n; it++ {
+	// the last seven iterations are written out (see below); the generator's state is put back afterwards so
+	// that what follows sees the same inputs as before they were added
+	const nForced = 7
+	var savedRand hx.Rand
+	for it := 0; it < n+nForced; it++ {
+		if it == n {
+			savedRand = *r
+		}
 		method := methods[r.Intn(len(methods))]
 		ct := ctypes[r.Intn(len(ctypes))]
 		body := bodies[r.Intn(len(bodies))]
 		hcode = 0
 		if r.Chance(40) {
 			hcode = int64(r.Range(1, 16))
-			if r.Chance(15) {
+			if it%7 == 3 {
 				// grpc-go passes codes outside the seventeen defined ones through untouched
-				hcode = []int64{17, 42, 99, 1000}[r.Intn(4)]
+				// (chosen without drawing from the generator, so that the other inputs stay what they were)
+				hcode = []int64{17, 42, 99, 1000}[(it/7)%4]
 			}
 		}
 		hdr := http.Header{}
@@ -122,6 +130,21 @@ func runC11(o *hx.Out, r *hx.Rand, thorough bool) {
 				hdr.Add("Authorization", "Bearer x")
 			}
 		}
+		forcedStream := -1
+		if k := it - n; k >= 0 {
+			// a JSON (and a protobuf) unary request whose body has no bytes at all; streaming requests whose
+			// GRPC-Timeout has expired by the time the handler returns (the reply still ends in its trailer)
+			method, hdr = "POST", http.Header{}
+			switch {
+			case k < 3:
+				ct, body, forcedStream = []string{httpgrpc.ApplicationJson, "APPLICATION/JSON", "application/json;charset=UTF-8"}[k], []byte{}, 0
+			case k == 3:
+				ct, body, forcedStream = httpgrpc.UnaryRpcContentType_V1, []byte{}, 0
+			default:
+				ct, body, forcedStream = httpgrpc.StreamRpcContentType_V1, pb, 1
+				hdr.Set("Grpc-Timeout", []string{"1n", "1u", "0m"}[k-4])
+			}
+		}
 		for k, vs := range hdr {
 			if strings.HasSuffix(strings.ToLower(k), "-bin") {
 				for _, v := range vs {
@@ -136,6 +159,9 @@ func runC11(o *hx.Out, r *hx.Rand, thorough bool) {
 		}
 		media, _, _ := mime.ParseMediaType(hdr.Get("Content-Type"))
 		stream := r.Chance(40)
+		if forcedStream >= 0 {
+			stream = forcedStream == 1
+		}
 		mk := func(path string) (*httptest.ResponseRecorder, bool) {
 			req := httptest.NewRequest("POST", path, bytes.NewReader(body))
 			req.Method = method
@@ -226,6 +252,7 @@ func runC11(o *hx.Out, r *hx.Rand, thorough bool) {
 				reqTerm(false), nsend, hcode, rec.Code, hx.B(strings.Contains(rec.Header().Get("Allow"), "POST")), calls, nd, nt, hx.B(tl), hx.Z(tc), hx.B(panicked)), d)
 		}
 	}
+	*r = savedRand
 	// streaming request bodies, frame by frame: a handler that reads its requests to the end sees exactly the
 	// well-formed messages before the first malformed frame, and a malformed frame (undecodable payload, payload
 	// shorter than its size preface, size preface cut short) ends the call with a non-OK status
